@@ -20,7 +20,7 @@ Render(c) == c.pre \o <<"CS">> \o c.w1 \o <<"=">> \o c.w2
              \o (IF c.q = "none" THEN c.lbl ELSE <<c.q>> \o c.lbl \o <<c.q>>) \o c.post
 
 HClasses == {"tok", "UP", "dq", "sq", "bs", "semi", "eq", "comma", "sp", "tab", "cr", "lf", "esc", "ff", "del", "pct",
-             "star", "u8", "cont", "xff", "paren", "gt", "slash", "colon", "lt", "at", "qm", "lbr", "rbr", "inj"}
+             "star", "u8", "cont", "xff", "paren", "gt", "slash", "colon", "lt", "at", "qm", "lbr", "rbr", "inj", "longu8", "longtok"}
 HostileDocs(n) == [kind : {"hostile"}, syn : {"meta-dq", "meta-sq", "meta-none", "pragma-dq", "pragma-inner-sq", "xml-dq", "xml-sq"},
                    lbl : SeqsUpTo(HClasses, n) \ {<<>>}, bom : {"none", "utf-8"}, lim : {"default", "cut-inside"}]
 Init == CASE Mode = "hostile2" -> d \in HostileDocs(2)
